@@ -279,6 +279,26 @@ def E1_lmpdat_writer_reader(repo, clause):
                 rname = "?"
             obs.append(Ob("E1", clause, r, n, ok, "coefficient reader keeps every token after the id and re-attaches the comment", slot="coeffs-reader:%s" % rname))
     floor("E1", "coefficient reader branches", n_co, 5)
+    # sibling agreement of the coefficient branches (whatever their spelling): what is appended under `section == "<X> Coeffs"` reads the same
+    # per-line locals in every branch - a branch that leaves one out (the comment, the tokens) stores something else than its siblings
+    sib = []
+    for n in r.own_nodes():
+        if isinstance(n, ast.Call) and isinstance(n.func, ast.Attribute) and n.func.attr == "append" and len(n.args) == 1:
+            for t, pol, kk in norm_guards(r, n):
+                if pol and isinstance(t, ast.Compare) and len(t.ops) == 1 and isinstance(t.ops[0], ast.Eq):
+                    sec = [v for v in (const_value(t.left), const_value(t.comparators[0])) if isinstance(v, str) and v.endswith("Coeffs")]
+                    if sec:
+                        sib.append((sec[0], n, {x.id for x in ast.walk(n.args[0]) if isinstance(x, ast.Name)}))
+    if len(sib) >= 3:
+        from collections import Counter
+        cnt = Counter(nm for _, _, names in sib for nm in names)
+        common = {nm for nm, k_ in cnt.items() if k_ >= len(sib) - 1}
+        for sec, n, names in sib:
+            missing = sorted(common - names)
+            obs.append(Ob("E1", clause, r, n, not missing,
+                          "reader branch of section %r stores the same per-line values as its sibling coefficient branches%s" % (
+                              sec, "" if not missing else " -- it does not read %s, which every other coefficient branch stores (e.g. the trailing comment of the line is dropped for this section only)" % ", ".join(missing)),
+                          slot="coeffs-reader-siblings:%s" % sec, positive="robust"))
     # comment canonical form: reader's re-join string equals the separator the writer uses for labels
     sep_r = None
     for n in r.own_nodes():
@@ -673,6 +693,8 @@ def E_dispatch(repo, clause):
         first_dot = [c_ for c_ in ast.walk(fn.node) if isinstance(c_, ast.Call) and isinstance(c_.func, ast.Attribute) and c_.func.attr in ("partition", "split", "find", "index")
                      and c_.args and const_value(c_.args[0]) == "." and not (c_.func.attr == "split" and isinstance(fn.parents.get(c_), ast.Subscript)
                                                                             and const_value(fn.parents.get(c_).slice) == -1)]
+        first_dot += [s_ for s_ in ast.walk(fn.node) if isinstance(s_, ast.Subscript) and isinstance(s_.value, ast.Attribute) and s_.value.attr == "suffixes"
+                      and isinstance(const_value(s_.slice), int) and const_value(s_.slice) >= 0]
         if first_dot:
             obs.append(Ob("E5", clause, fn, first_dot[0], False,
                           "the file type is taken from `%s`: what follows the FIRST dot of the name - for `water.v2.lmpdat` that is `v2.lmpdat`, not `lmpdat` (os.path.splitext and the command line use the last dot)" % ast.unparse(first_dot[0])[:50],
@@ -1228,6 +1250,12 @@ def E2_cif_tags(repo, clause):
            [s for s in r.own_nodes() if isinstance(s, ast.Assign) and isinstance(s.value, ast.BinOp) and isinstance(s.value.op, ast.Mod) and const_value(s.value.right) == 1]
     dots = [s for s in r.own_nodes() if isinstance(s, ast.Assign) and isinstance(s.value, ast.Call) and call_name(s.value) in ("dot", "matmul")]
     ok = len(mods) == 1 and len(dots) == 1 and r.cfg.dominates(mods[0], dots[0]) and not r.cfg.reaches(dots[0], mods[0])
+    if not mods and len(dots) == 1:
+        # the wrap written inside the product: `np.dot(x % 1.0, cell)` - wrapped first by construction
+        inl = [b for b in ast.walk(dots[0].value) if isinstance(b, ast.BinOp) and isinstance(b.op, ast.Mod) and const_value(b.right) == 1]
+        if len(inl) == 1:
+            mods = [dots[0]]
+            ok = True
     def _fract_flag_guard(s):
         for t, pol, k in norm_guards(r, s):
             if pol and isinstance(t, ast.Name):
@@ -1246,6 +1274,26 @@ def E2_cif_tags(repo, clause):
         flag_tab = _fract_flag_table(r, mods[0], dots[0])
         if flag_tab is not None and flag_tab[0]:
             g_ok = True
+    # a wrap applied to a SELECTION of the coordinates (`x[mask] %= 1`): the mask, evaluated on representative coordinates, must select every value that the wrap changes
+    if mods and isinstance(mods[0], ast.AugAssign) and isinstance(mods[0].target, ast.Subscript) and isinstance(mods[0].target.value, ast.Name):
+        from .common import eval_small, Undecidable
+        try:
+            mask = expand(r, mods[0].target.slice)
+        except Exception:
+            mask = mods[0].target.slice
+        left_out, undec = [], False
+        for v_ in (-1.0, -0.5, 0.0, 0.25, 1.0, 1.5, 2.0):
+            try:
+                sel = eval_small(mask, {mods[0].target.value.id: v_})
+            except Undecidable:
+                undec = True
+                break
+            if not sel and v_ % 1.0 != v_:
+                left_out.append(v_)
+        obs.append(Ob("E2", clause, r, mods[0], not left_out and not undec,
+                      "the wrap `%s` is applied to a selection of the coordinates%s" % (ast.unparse(mods[0])[:60], "" if not left_out else
+                                                                                      ": the selection leaves out %s, which the wrap would change - such coordinates stay outside [0, 1)" % left_out),
+                      slot="wrap-selection", positive="robust" if left_out else False, undecided=undec))
     if flag_tab is not None and not flag_tab[0]:
         obs.append(Ob("E2", clause, r, mods[0], False, "fractional coordinates are wrapped and multiplied with the cell %s" % flag_tab[1], slot="wrap-before-product", positive="robust"))
     else:
@@ -1258,7 +1306,22 @@ def E2_cif_tags(repo, clause):
         cellv = expand(r, c.args[0]) if c.args else None
         ok = isinstance(c.func, ast.Attribute) and isinstance(c.func.value, ast.Name) and c.func.value.id == wrapped and \
             isinstance(cellv, ast.Call) and call_name(cellv) == "cellpar_to_cell"
-        obs.append(Ob("E2", clause, r, dots[0], ok, "Cartesian = fractional (rows) . cell (rows = lattice vectors)", slot="frac-to-cart"))
+        form = None
+        if not ok:
+            # any spelling of the product (x.dot(cell), np.dot(x, cell), np.matmul, with the wrap written inline): which matrix is applied to the row vectors
+            from .common import vec_mat_form
+
+            def _is_cell(x):
+                try:
+                    v = expand(r, x)
+                except Exception:
+                    v = x
+                return isinstance(v, ast.Call) and call_name(v) == "cellpar_to_cell"
+            form = vec_mat_form(c, is_mat=_is_cell)
+            ok = form == "M"
+        obs.append(Ob("E2", clause, r, dots[0], ok, "Cartesian = fractional (rows) . cell (rows = lattice vectors)%s" % (
+            "" if form != "M.T" else " -- the product applies the TRANSPOSED cell: combinations of its columns, not of the lattice vectors"), slot="frac-to-cart",
+            positive=form == "M.T", undecided=(not ok and form is None)))
     # reader: the six cell parameters reach cellpar_to_cell in the order of their tags (a, b, c, alpha, beta, gamma)
     want_tags = ["_cell_length_a", "_cell_length_b", "_cell_length_c", "_cell_angle_alpha", "_cell_angle_beta", "_cell_angle_gamma"]
     for cpc in [x for x in calls_in(r) if call_name(x) == "cellpar_to_cell" and x.args and isinstance(x.args[0], (ast.List, ast.Tuple)) and len(x.args[0].elts) == 6]:
@@ -1606,10 +1669,33 @@ def E_bond_cutoff(repo, clause):
         else:
             ok = False
     ok = ok and seen_pol == {True, False}
-    obs.append(Ob("E7", clause, mb, mb.node, ok, positive=(len(dl) == 2),
+    sem_undecided = False
+    if not ok:
+        # the same decision taken semantically: the decision list evaluated on the four (non-metal?, non-metal?) representatives, whatever the spelling of its tests
+        from .fam_d2 import Table, Unknown
+        try:
+            tab = Table(repo, dl)
+            nms = tab.const_of(nm)
+            m_, v_, radii = _literal(repo, "COVALENT_RADII")
+            rep_nm = sorted(x for x in nms if x in radii)[0]
+            rep_m = sorted(x for x in radii if x not in nms)[0]
+            ok = True
+            wrong = []
+            for e1 in (rep_nm, rep_m):
+                for e2 in (rep_nm, rep_m):
+                    i_, leaf = tab.decide({P("e1"): e1, P("e2"): e2})
+                    want = with_allow if (e1 == rep_nm or e2 == rep_nm) else base
+                    if leaf != ("ret", want):
+                        ok = False
+                        wrong.append((e1, e2))
+            if not ok:
+                dl = ["wrong for (el1, el2) = %s" % wrong] + list(dl)
+        except (Unknown, AnalysisError, IndexError, KeyError, TypeError):
+            sem_undecided = True
+    obs.append(Ob("E7", clause, mb, mb.node, ok, positive=(len(dl) >= 2) and not sem_undecided, undecided=sem_undecided,
                   detail="cutoff = r(el1) + r(el2) + 0.45 when el1 OR el2 is a non-metal, else r(el1) + r(el2) (decision list: %s)" % (str(dl)[:200] if not ok else "2 leaves as required"),
                   construct="def max_bond_length", slot="cutoff-formula"))
-    ins = [n for n in mb.own_nodes() if isinstance(n, ast.Compare) and len(n.ops) == 1 and isinstance(n.ops[0], ast.In) and isinstance(n.left, ast.Name)
+    ins = [n for n in mb.own_nodes() if isinstance(n, ast.Compare) and len(n.ops) == 1 and isinstance(n.ops[0], (ast.In, ast.NotIn)) and isinstance(n.left, ast.Name)
            and "NON_METALS" in ast.unparse(n.comparators[0])]
     tested = {n.left.id for n in ins}
     obs.append(Ob("E7", clause, mb, ins[0] if ins else mb.node, tested == set(mb.params[:2]),
